@@ -314,9 +314,10 @@ def eval_form(item, rec):
     full = form["mode"] in ("standard", "spec")
     for lab, o in obs.items():
         app = applicable[lab] or (form["mode"] == "standard")
-        if not applicable[lab]:
-            rec.count("form_levels_not_applicable")
-            rec.note("%s: no operand types accepted at level %s (e.g. %s)" % (form["id"], lab, sorted({v[1] for v in o.values()})[:3]))
+        if applicable[lab]:
+            rec.count("level_applicable_%s" % lab)
+        else:
+            rec.count("form_levels_not_applicable")      # e.g. a dataset-only operator given scalars (cases kept as trivial)
         for tp, ob in o.items():
             acc = ob[0] == "ok"
             rec.case((form["id"], lab, tp, "accept" if acc else "reject"), ("accept" if acc else "reject:" + str(ob[1])) if app else "level-n/a",
@@ -577,6 +578,11 @@ class Check:
             return {"exhaustive": False}
         forms, unrendered = discover_forms(tier, rec)
         T = tab.all_types
+        only = os.environ.get("C11_FORMS")          # debugging aid only: restrict the script forms (never exhaustive)
+        if only:
+            import re
+            forms = [f for f in forms if re.search(only, f["id"])]
+            rec.note("C11_FORMS=%s: only %d script forms evaluated" % (only, len(forms)))
         items = []
         for f in forms:
             tuples = harness.seeded_order(list(itertools.product(T, repeat=f["n"])), seed)
@@ -593,7 +599,7 @@ class Check:
         for u in unrendered:
             rec.note("no script form found for %s (covered at level (a) only)" % u)
         registered = {M.cls_label(c) for m in M.registries().values() for c in m.values()}
-        spec_cls = {s["cls"] for s in SPECS}
+        spec_cls = {s["cls"] for s in SPECS} | {f["cls"] for f in forms}
         others = sorted(M.cls_label(c) for c in M.all_operator_classes()
                         if M.arity(c) in (1, 2) and M.cls_label(c) not in registered and M.cls_label(c) not in spec_cls and c.__subclasses__() == [])
         if others:
@@ -603,7 +609,10 @@ class Check:
         if not any(k[3] == "accept" for k in rec.keys if len(k) == 4 and k[1] in ("s", "ss")) or \
                 not any(k[3] == "reject" for k in rec.keys if len(k) == 4 and k[1] in ("s", "ss")):
             rec.tool_error("scalar level never produced both an accepted and a rejected case")
-        return {"exhaustive": True, "operator_classes_level_a": nclasses, "distinct_signatures": nsigs,
+        for kind in ("s", "c", "d"):
+            if not only and not any(k.startswith("level_applicable_") and set(k[17:]) == {kind} and v for k, v in rec.counters.items()):
+                rec.tool_error("no operator form was applicable at level %r: the level generator is broken" % kind)
+        return {"exhaustive": not only, "operator_classes_level_a": nclasses, "distinct_signatures": nsigs,
                 "script_forms": len(forms), "forms_without_script": len(unrendered), "types": T,
                 "levels": sorted({lv["label"] for f in forms for lv in f["levels"]})}
 
